@@ -975,4 +975,34 @@ theorem C08_graph_forward (rows : List Row) (ws : Waits) (w : Int × Int) (zl : 
     · exact C08_kernel_edges_forward rows _ ws _ zl _ hcausal d hd
   exact ⟨hf, C08_weights_nonneg rows ws w zl hf⟩
 
+/-- **Towards acyclicity for all inputs**: under the hypotheses of `C08_graph_forward` two nodes that
+lie on a common cycle of the built graph carry the same time — a cycle, if there were one, would be
+confined to a single instant of the trace's clock. (That no such instantaneous cycle exists either is
+what the proved certificate checker `C08_checkTopo_sound` establishes per run.) -/
+theorem C08_cycle_simultaneous (rows : List Row) (ws : Waits) (w : Int × Int) (zl : Bool)
+    (hrows : ∀ r ∈ clip rows w, findRow rows r.idx = some r)
+    (hdur : ∀ r ∈ clip rows w, 0 ≤ r.dur)
+    (hwf : ∀ t ∈ C13.threadsOf (clip rows w), C03.WF ((C13.threadRows (clip rows w) t).map fun r => (⟨r.idx, r.ts, max r.dur 0⟩ : C03.Ev)))
+    (hcausal : Causal rows (clip rows w) ws (kernelRows rows (clip rows w)))
+    (a b : NodeId) (hab : Walk (build rows ws w zl).2.edges a b) (hba : Walk (build rows ws w zl).2.edges b a) :
+    tsOf rows a = tsOf rows b := by
+  have hf := (C08_graph_forward rows ws w zl hrows hdur hwf hcausal).1
+  exact Int.le_antisymm (walk_forward hf hab) (walk_forward hf hba)
+
+/-- … and every edge on such a cycle weighs nothing: a positive-weight edge is never on a cycle. -/
+theorem C08_positive_edge_not_on_cycle (rows : List Row) (ws : Waits) (w : Int × Int) (zl : Bool)
+    (hrows : ∀ r ∈ clip rows w, findRow rows r.idx = some r)
+    (hdur : ∀ r ∈ clip rows w, 0 ≤ r.dur)
+    (hwf : ∀ t ∈ C13.threadsOf (clip rows w), C03.WF ((C13.threadRows (clip rows w) t).map fun r => (⟨r.idx, r.ts, max r.dur 0⟩ : C03.Ev)))
+    (hcausal : Causal rows (clip rows w) ws (kernelRows rows (clip rows w)))
+    (e : Edge) (he : e ∈ (build rows ws w zl).2.edges) (hback : Walk (build rows ws w zl).2.edges e.dst e.src) :
+    e.weight = 0 := by
+  have hf := (C08_graph_forward rows ws w zl hrows hdur hwf hcausal).1
+  have h1 : tsOf rows e.src ≤ tsOf rows e.dst := hf e he
+  have h2 := walk_forward hf hback
+  have hw := (C08_edge_weight_rule rows ws w zl e he).2
+  rcases hw with hw | hw
+  · exact hw
+  · rw [hw]; omega
+
 end Hta.C08
